@@ -13,6 +13,7 @@
 From Coq Require Import ZArith List Bool.
 From Coq Require Export Uint63.
 From TV Require Import Lib.MachInt Gen.PageConsts Gen.LeafLayout Gen.InteriorLayout Gen.HnswLayout.
+From TV Require Model.Record.
 From TV Require Export Model.StoredBytes Model.PageAccess Model.ArrayView.
 Import ListNotations.
 Open Scope Z_scope.
@@ -55,7 +56,26 @@ Definition unit_vals (_ : unit) : list Z := [].
           40 ArrayView::new                41 .elem_type()                 42 .is_null(i)
           43 .get_int2/4/8|float4/8 (w,i)  44 .get_bool(i)                 45 .get_blob(i)
           46 .get_text(i)                  47 .len()
+          50 RecordView::new + OwnedValue::extract_row_from_record, args = the DataType codes of the schema;
+             judged by the C31 model (Model/Record.v extract), outcome class only (the values are C31's subject)
    The accessors 11.. / 21.. / 31.. / 41.. are reached through their constructor, as in the code. *)
+Definition dtype_of_code (c : Z) : Record.dtype :=
+  match c with
+  | 0 => Record.TBool | 1 => Record.TInt2 | 2 => Record.TInt4 | 3 => Record.TInt8 | 4 => Record.TFloat4
+  | 5 => Record.TFloat8 | 6 => Record.TDate | 7 => Record.TTime | 8 => Record.TTimestamp | 9 => Record.TTimestampTz
+  | 10 => Record.TUuid | 11 => Record.TMacAddr | 12 => Record.TInet4 | 13 => Record.TInet6 | 20 => Record.TText
+  | 21 => Record.TBlob | 22 => Record.TVector | 23 => Record.TJsonb | 24 => Record.TVarchar | 25 => Record.TChar
+  | 30 => Record.TDecimal | 31 => Record.TInterval | 40 => Record.TInt4Range | 41 => Record.TInt8Range
+  | 42 => Record.TDateRange | 43 => Record.TTimestampRange | 50 => Record.TEnum | 60 => Record.TPoint
+  | 61 => Record.TBox | 62 => Record.TCircle | 70 => Record.TComposite | 71 => Record.TArray
+  | _ => Record.TInt8
+  end.
+Definition record_extract_class (codes : list Z) (d : list Z) : res (list Z) :=
+  match Record.extract (map dtype_of_code codes) d with
+  | Record.Ok _ => Ok []
+  | Record.Err => Err
+  | Record.Panic => Panic
+  end.
 Definition run_model (w : Z) (d : list Z) (args key : list Z) : res (list Z) :=
   let i := arg args 0 in
   if w =? 1 then meta_from_bytes d
@@ -92,6 +112,7 @@ Definition run_model (w : Z) (d : list Z) (args key : list Z) : res (list Z) :=
   else if w =? 45 then _ <- array_new d ;; rmap digest (get_blob d i)
   else if w =? 46 then _ <- array_new d ;; rmap digest (get_text d i)
   else if w =? 47 then _ <- array_new d ;; rmap (fun c => [c]) (alen d)
+  else if w =? 50 then record_extract_class args d
   else Err.
 
 Definition obs_of (r : res (list Z)) : obs :=
@@ -131,7 +152,9 @@ Definition spec_ok (c : case) : bool :=
      4  HNSW get_slot / read_node_data: the slot entry lies beyond the page
      5  HNSW read_node_data: active slot whose offset + size exceeds the page
      6  ArrayView::elem_type: type byte that is no DataType discriminant
-     7  ArrayView getters: a position computed from the stored len / offsets lies outside the data *)
+     7  ArrayView getters: a position computed from the stored len / offsets lies outside the data
+    14  RecordView (extract_row_from_record): the null bitmap, the offset table or a column slice computed from
+        the stored header length / end offsets lies outside the record bytes (the C31 model panics) *)
 (* the input predicates are those of Model/PageAccess.v / ArrayView.v, restricted to bytes the constructor accepts *)
 Definition accepted {A} (r : res A) : bool := match r with Ok _ => true | _ => false end.
 Definition interior_search_oob (d key : list Z) : bool :=
@@ -148,6 +171,7 @@ Definition dec_class (w : Z) (d : list Z) (args key : list Z) : Z :=
   else if (w =? 41) && accepted (array_new d) && array_type_bad d then 6
   else if ((w =? 42) || (w =? 43) || (w =? 44) || (w =? 45) || (w =? 46))
           && is_panic (run_model w d args key) then 7
+  else if (w =? 50) && is_panic (run_model w d args key) then 14
   else 0.
 
 (* Xp cases: kind 1 = LeafNode::find_key on a corrupted leaf page, feat = [stored cell_count];
